@@ -66,6 +66,7 @@ type c10field interface {
 	ReadInto(chunk int, rcv string, c c10cfg, v []*big.Int, tab bool) string
 	WriteBytes(c c10cfg) []byte
 	ReadBytes(chunk int, data []byte) string
+	Stream(rdr string, cfgs []c10cfg, trailer []byte) string
 }
 
 var c10fields = map[string]c10field{}
@@ -466,6 +467,10 @@ func execC10(a []string) string {
 	switch a[0] {
 	case "big":
 		return execC10big(a[1:])
+	case "gen":
+		return execC10gen(a[1:])
+	case "stream":
+		return execC10stream(a[1:])
 	case "fft", "inv", "roundtrip", "rtinv":
 		f, c, v, ok := c10args(a[1:])
 		if !ok {
@@ -566,8 +571,8 @@ func execC10(a []string) string {
 		if !ok1 || err != nil || s > 62 {
 			return "bad-op"
 		}
-		root, okr := f.Gen(uint64(1) << s)
-		_, tooBig := f.Gen(uint64(1) << (s + 1))
+		// s and the root are not asked from Generator's own bound: s = v2(q-1), root = Generator(2^s) or `-` when the package has none
+		sq, root := c10root(f)
 		mg := parseBig(a[5])
 		var shift *big.Int
 		if a[6] == "1" {
@@ -575,7 +580,7 @@ func execC10(a []string) string {
 		} else if mg.Cmp(f.MulGen()) != 0 {
 			return "bad-op"
 		}
-		if !okr || tooBig || parseBig(a[2]).Cmp(f.Q()) != 0 || parseBig(a[3]).Cmp(root) != 0 {
+		if s != sq || parseBig(a[2]).Cmp(f.Q()) != 0 || a[3] != root {
 			return "bad-op"
 		}
 		r := f.DomainInfo(m, shift)
@@ -722,13 +727,7 @@ func genC10(g *gen) {
 			g.emit("C10 bitrev %s %x %s", name, logn, c10vec(v))
 		}
 		// (d) domain constants
-		s := 0
-		for ; s < 62; s++ {
-			if _, ok := f.Gen(uint64(1) << (s + 1)); !ok {
-				break
-			}
-		}
-		root, _ := f.Gen(uint64(1) << s)
+		s, root := c10root(f) // s = v2(q-1): the field's two-adicity, not the bound Generator enforces
 		ms := []uint64{0, 1, 2, 3, 4, 5, 7, 8, 9, 31, 32, 33, 255, 256, 257, 1 << 20, 1<<20 + 1, 1<<uint(s) - 1, 1 << uint(s),
 			1<<uint(s) + 1, 1 << uint(s+1), 1 << 63, 1<<63 + 1, ^uint64(0)}
 		for i := 0; i < g.budget(4, 40); i++ {
@@ -739,7 +738,7 @@ func genC10(g *gen) {
 			if sh := shiftOrNil(); sh != nil {
 				mg, custom = sh, "1"
 			}
-			g.emit("C10 domain %s %s %s %x %s %s %x", name, hexBig(q), hexBig(root), s, hexBig(mg), custom, m)
+			g.emit("C10 domain %s %s %s %x %s %s %x", name, hexBig(q), root, s, hexBig(mg), custom, m)
 		}
 		// (e) serialisation through readers with every chunking
 		nbytes := f.NBytes()
@@ -924,6 +923,9 @@ func genC10(g *gen) {
 			k++
 		}
 	}
+	// Generator at every log-size, several domains on one stream (c10_stream.go)
+	genC10gen(g)
+	genC10stream(g)
 	// (h) large transforms by digest (c10_big.go)
 	genC10big(g)
 	// (g) malformed lines
